@@ -32,7 +32,7 @@ func runC29(c *core.Ctx) error {
 		return err
 	}
 	defer l.Close()
-	bases, err := chooseBases(c, l, c.Pick(3, 9), c.Pick(1, 14), c.Pick(150, 400))
+	bases, err := chooseBases(c, l, c.Pick(3, 10), c.Pick(1, 14), c.Pick(150, 400))
 	if err != nil {
 		return err
 	}
@@ -261,7 +261,9 @@ func runC29(c *core.Ctx) error {
 }
 
 func assumptions(c *core.Ctx) {
-	c.Assume("schemas of the model fragment: explicit tags on every combinator (DESIGN 6), {x:#} template parameters only, builtins int/long/string/#/Vector/Tuple, no recursive types")
+	c.Assume("schemas of the model fragment: {x:#} template parameters only, builtins int/long/string/#/Vector/Tuple, no recursive types")
+	c.Assume("a textual edit of an implicitly tagged combinator changes its tag by definition (CRC32 of the text); edits are therefore applied to combinators whose tag is explicit, or whose tag is on no wire (implicitly tagged constructors used bare only: appending a masked field to them is a documented safe edit and must be accepted); functions and boxed-used constructors with implicit tags are only subject to AddExplicitTag (DESIGN 6)")
+	c.Assume("effective tags of implicitly tagged combinators are taken from the real front end (tlast Combinator.Crc32(), bound to the documented rule by C23)")
 	c.Assume("the linter is called like cmd/tlgen/main2.go does: both texts parsed with AllowBuiltin=false/AllowDirty=false, CheckBackwardCompatibility(new, old); error = rejected, texts of messages are not compared")
 	c.Assume("a # field or parameter to which the old schema gives no meaning (no mask bit, no array size) is zero in old values")
 	c.Assume("function requests: an unmasked # argument met at the end of an old request reads as zero (appended field mask)")
